@@ -152,7 +152,7 @@ def run(ck):
     ft = field_table(ck)
     nfields = check_field_table(ck, ft) if ft else 0
 
-    n = {"quick": 400, "thorough": 6000}[ck.tier]
+    n = {"quick": 300, "thorough": 6000}[ck.tier]
     out = os.path.join(ck.work, "c18.jsonl")
     rc, log = ck.go_test_overlay(PKG, {"zz_verif_test.go": os.path.join(H, "targets_verif_test.go")},
                                  env={"VERIF_OUT": out, "VERIF_N": str(n)})
